@@ -18,7 +18,7 @@ PROPS = {
         "design_ref": "DESIGN.md section 6 (C20)",
         "projection": "packets surfaced to the client core per transport; application-level traces",
         "mismatch_is_input": True,
-        "level_text": "Coq theorems on the two adapters (Model/WsBridge.v): for every script over {response, push, heartbeat from the peer, pong to the client's heartbeat, close with code/reason}, the packets handed to the client core over TCP and over WebSocket agree in type, command, status, body and request id (except the id a surfaced WebSocket ping draws from the connection's generator), and are routed identically; WebSocket ping/pong/close are surfaced as heartbeat request / heartbeat response carrying the heartbeat id as request id / close packet; heartbeat and close packets the client writes travel as ping/close control frames carrying the body. gorilla/websocket is a parameter (handler contract). Tie: one script run over both transports; surfaced packets compared with the model per transport, application traces diffed. Partial: abrupt-drop recovery and ordering around close are compared by scenario only; undecodable data frames (ignored on WebSocket, fatal on TCP) are outside the common scripts.",
+        "level_text": "Coq theorems on the two adapters (Model/WsBridge.v): for every script over {response, push, heartbeat from the peer, pong to the client's heartbeat, close with code/reason}, the packets handed to the client core over TCP and over WebSocket agree in type, command, status, body and request id (except the id a surfaced WebSocket ping draws from the connection's generator), and are routed identically; WebSocket ping/pong/close are surfaced as heartbeat request / heartbeat response carrying the heartbeat id as request id / close packet; heartbeat and close packets the client writes travel as ping/close control frames carrying the body. gorilla/websocket is a parameter (handler contract). Tie: one script run over both transports; surfaced packets compared with the model per transport, application traces diffed. Partial: abrupt-drop recovery and ordering around close are compared by scenario only; undecodable data frames (ignored on WebSocket, fatal on TCP) are outside the common scripts. Plus transport-diffed scripts for opaque pongs, small gzip threshold keepalive, quiet period after a pong, largest body, and a heartbeat queued when the peer goes away.",
         "level_note": "Trusted: kernel, extraction, harness, gorilla/websocket per its documented handler contract (control handlers run inside the read; WriteControl concurrent with WriteMessage).",
         "assumptions": ["gorilla/websocket handler contract", "proto.Marshal of control.Close is deterministic", "the peer's pong carries the client's heartbeat body (C15)"],
         "modelled": "wsConn.onPing/onPong/onClose/readPacket/Write routing, tcpConn path by identity",
@@ -29,7 +29,7 @@ PROPS = {
         "projection": "completion (result class, wall-clock bound, panic) of every request call; final lifecycle observables",
         "mismatch_is_input": True,
         "timeout": {"quick": 1500, "thorough": 6000},
-        "level_text": "Coq theorems on three mechanism models. Waiters.v: a call that has written its request always has its deadline step enabled and that step finishes it, whatever the peer did; a call waiting while the connection is recycled (waiter sweep) returns 'lost', never panics or hangs. Life.v (lifecycle of the repaired client: Close with its once, losses, the recovery loop's head / dial / auth steps, writes, goroutine exits): no interleaving of any length reaches a panic state (nil connection, double close of a channel) and a write on a closed or replaced connection is an immediate error. Recovery.v (C08): every attempt ends. PARTIAL: the numeric bound request+dial+auth timeouts is measured, not proved - the models have no clock; of the lock interactions only the one place where a lock holder waits for something other than a timer (Close vs another closer of the connection, Model/CloseLock.v, theorems in Properties/C14.v) is modelled; the rest (the repaired self-deadlock of closeByServer) is covered by scenario. Tie: peer scripts silence / drop after every byte k of the response / server close packet / garbage / refused dials / rejected RECONNECT / silent AUTH / concurrent Close, calls issued before, during and after the fault, TCP and WebSocket; every call under a watchdog and recover(); histories replayed by the Waiters and Life models.",
+        "level_text": "Coq theorems on three mechanism models. Waiters.v: a call that has written its request always has its deadline step enabled and that step finishes it, whatever the peer did; a call waiting while the connection is recycled (waiter sweep) returns 'lost', never panics or hangs. Life.v (lifecycle of the repaired client: Close with its once, losses, the recovery loop's head / dial / auth steps, writes, goroutine exits): no interleaving of any length reaches a panic state (nil connection, double close of a channel) and a write on a closed or replaced connection is an immediate error. Recovery.v (C08): every attempt ends. PARTIAL: the numeric bound request+dial+auth timeouts is measured, not proved - the models have no clock; of the lock interactions only the one place where a lock holder waits for something other than a timer (Close vs another closer of the connection, Model/CloseLock.v, theorems in Properties/C14.v) is modelled; the rest (the repaired self-deadlock of closeByServer) is covered by scenario. Tie: peer scripts silence / drop after every byte k of the response / server close packet / garbage / refused dials / rejected RECONNECT / silent AUTH / concurrent Close, calls issued before, during and after the fault, TCP and WebSocket; every call under a watchdog and recover(); histories replayed by the Waiters and Life models. Also scripted: a caller deadline later than the request timeout, and a host that leaves connection attempts unanswered during the recovery (backlog-0 listener).",
         "level_note": "Trusted: kernel, extraction, harness (scripted peers, watchdog). Partial: wall-clock bound measured with 1.2 s scheduling slack; lock discipline not modelled.",
         "assumptions": ["Go select with a ready timer case eventually runs", "context deadlines fire"],
         "modelled": "client.Do/recv/deadline, waiter sweep on reconnectDial, Close/closeOnce, reconnecting loop phases, conn slot never nil after Dial",
@@ -96,7 +96,7 @@ PROPS = {
         "mismatch_is_input": True,
         "vm_max_len": 300,
         "timeout": {"quick": 1500, "thorough": 6000},
-        "level_text": "Coq theorems on the write path (Model/WritePath.v: write(), the writer goroutine with its remainder buffer, the socket taking any number of bytes per write) for every interleaving of enqueues by any number of writers with writer steps: in every reachable state socket bytes ++ remainder ++ queued items = handshake ++ accepted frames in acceptance order (so the peer holds a prefix: never interleaved, torn, duplicated or lost; all of it once drained); the handshake stays first; an enqueue is a single step that always returns, accepted iff open and room, a full queue is an error that changes nothing; WebSocket: one binary message per accepted frame in order. Tie: real tcpConn/wsConn from the registered dialers against stalled, slow and normal peers, queue sizes 1..16, frames 1 B..1 MiB, gzip thresholds; sequential runs compared with the model, concurrent writers by direct oracle on the peer's stream.",
+        "level_text": "Coq theorems on the write path (Model/WritePath.v: write(), the writer goroutine with its remainder buffer, the socket taking any number of bytes per write) for every interleaving of enqueues by any number of writers with writer steps: in every reachable state socket bytes ++ remainder ++ queued items = handshake ++ accepted frames in acceptance order (so the peer holds a prefix: never interleaved, torn, duplicated or lost; all of it once drained); the handshake stays first; an enqueue is a single step that always returns, accepted iff open and room, a full queue is an error that changes nothing; WebSocket: one binary message per accepted frame in order. Tie: real tcpConn/wsConn from the registered dialers against stalled, slow and normal peers, queue sizes 1..16, frames 1 B..1 MiB, gzip thresholds; sequential runs compared with the model, concurrent writers by direct oracle on the peer's stream. Plus: callers released together for the last free queue slot behind a writer stuck in a 12 MiB frame (every Write returns), and peer pings during 8 MiB WebSocket messages.",
         "level_note": "Trusted: kernel, extraction, harness incl. the reference decoder at the peer. The frame bytes are Pack's (C02). Short socket writes are modelled although real sockets report an error with them.",
         "assumptions": ["Go channel = FIFO with non-blocking send", "net.Conn.Write writes the bytes it reports", "gorilla WriteMessage sends one message per call"],
         "modelled": "tcpConn.Write/write/writing, dialTCPConn handshake enqueue, wsConn.write/writing, the version query of dialWSConn",
@@ -105,7 +105,7 @@ PROPS = {
         "design_ref": "DESIGN.md section 6 (C13)",
         "projection": "handler invocation sequence, logged drops, dispatched count",
         "mismatch_is_input": True,
-        "level_text": "Coq theorems on the reader/dispatcher pair around the bounded receive queue (Model/Dispatch.v) for every interleaving of their steps, every queue size, every subscription table and every mix of frames: handler invocations = the taken frames in arrival order, each push once to every handler of its command in subscription order and to no other; at quiescence that is every accepted frame; accepted = received minus the logged drops, in order; a drop happens only when the queue is full; control commands never reach subscribers. Tie: scripted bursts over TCP and WebSocket with a blocking first handler so the queue overflows deterministically, queue sizes 1..16, compared with the model; delivery across drop+recovery checked by direct oracle.",
+        "level_text": "Coq theorems on the reader/dispatcher pair around the bounded receive queue (Model/Dispatch.v) for every interleaving of their steps, every queue size, every subscription table and every mix of frames: handler invocations = the taken frames in arrival order, each push once to every handler of its command in subscription order and to no other; at quiescence that is every accepted frame; accepted = received minus the logged drops, in order; a drop happens only when the queue is full; control commands never reach subscribers. Tie: scripted bursts over TCP and WebSocket with a blocking first handler so the queue overflows deterministically, queue sizes 1..16, compared with the model; delivery across drop+recovery checked by direct oracle. Plus: frames read before Dial has registered the packet callback (dial.before-onpacket gate) are still delivered; re-entrant handlers; text messages; two clients at once.",
         "level_note": "Trusted: kernel, extraction, harness. Per connection; the order between the old and the new connection's dispatcher across a reconnect is checked by scenario only.",
         "assumptions": ["Go channel = FIFO queue with non-blocking send failing when full", "handlers are registered before Dial (documented)"],
         "modelled": "tcpConn/wsConn.OnPacket dispatcher, addPacket, client.onPacket/handleControl/handlePush/Subscribe",
@@ -189,7 +189,7 @@ PROPS = {
         "design_ref": "DESIGN.md section 6 (C11)",
         "projection": "per-operation results of multi-context histories",
         "mismatch_is_input": True,
-        "level_text": "Isolation over every history is a Coq theorem: in any interleaving of Pack / UnpackBytes / feed / Unpack / Unpack-until-not-done over any number of contexts and any pool contents, each context observes exactly what it observes running alone (C11_isolation), one-shot decode leaves the context untouched, the pooled header is completely reset. Tie: random histories of 5-40 operations over 1-3 contexts of both versions with partial, failing and successful decodes on real (wrapped) ring buffers, per-operation results compared with the model; N goroutines with independent contexts against the sequential results (direct oracle).",
+        "level_text": "Isolation over every history is a Coq theorem: in any interleaving of Pack / UnpackBytes / feed / Unpack / Unpack-until-not-done over any number of contexts and any pool contents, each context observes exactly what it observes running alone (C11_isolation), one-shot decode leaves the context untouched, the pooled header is completely reset. Tie: random histories of 5-40 operations over 1-3 contexts of both versions with partial, failing and successful decodes on real (wrapped) ring buffers, per-operation results compared with the model; N goroutines with independent contexts against the sequential results (direct oracle). Plus a repeat-decode oracle: the same frame decoded on empty pools and then on recycled objects gives the same result (gzip bodies with several members, trailing bytes, truncation).",
         "level_note": "Trusted: kernel, extraction, harness. sync.Pool is modelled as handing out an object with arbitrary stale contents; goroutine interleavings inside the pools are stress-tested, not proved.",
         "assumptions": ["sync.Pool hands an object to one owner at a time", "a context is used by one goroutine (as the client does)"],
         "modelled": "headerPool.Get/Put sites, headerFromContext, the defers of Unpack/UnpackBytes/Pack, Context.SetHeader/GetHeader/EndUnpack",
